@@ -1,31 +1,38 @@
 package main
 
 import (
-	"encoding/json"
 	"fmt"
 	"os"
+	"path/filepath"
+	"strings"
 
 	"github.com/google/pprof/internal/zzverif/vdrv"
-	"github.com/google/pprof/internal/zzverif/vlib"
 	"github.com/google/pprof/profile"
 )
 
 func main() {
-	b, _ := os.ReadFile(os.Args[1])
-	var r struct {
-		Case struct {
-			Samples []vlib.ASample `json:"samples"`
-			Opts    []string       `json:"opts"`
-			Form    string         `json:"form"`
-		} `json:"case"`
+	dir, _ := os.MkdirTemp("", "probe-src-")
+	defer os.RemoveAll(dir)
+	src := filepath.Join(dir, "dup.c")
+	var sb strings.Builder
+	for i := 1; i <= 60; i++ {
+		fmt.Fprintf(&sb, "/* line %d */\n", i)
 	}
-	json.Unmarshal(b, &r)
-	p := vlib.NewConc(0).Profile(vlib.AProf{ST: []vlib.AVT{{T: "s1", U: "count"}, {T: "s2", U: "count"}}, Samples: r.Case.Samples})
-	for _, opts := range [][]string{r.Case.Opts, {"-cum", "-nodecount=0", "-nodefraction=0", "-edgefraction=0", "-functions", "-sample_index=s2"}} {
-		args := append([]string{"-" + r.Case.Form}, opts...)
-		args = append(args, "-output=o", "src")
-		res := vdrv.Run(vdrv.Opts{Args: args, Fetch: func(string) (*profile.Profile, error) { return p.Copy(), nil }})
-		fmt.Println(args, res.Err)
-		fmt.Println(res.File("o"))
+	os.WriteFile(src, []byte(sb.String()), 0o644)
+	m := &profile.Mapping{ID: 1, Start: 0x1000, Limit: 0x2000, File: "bin1", HasFunctions: true, HasFilenames: true, HasLineNumbers: true}
+	f1 := &profile.Function{ID: 1, Name: "dup", SystemName: "dup", Filename: src, StartLine: 10}
+	f2 := &profile.Function{ID: 2, Name: "dup", SystemName: "dup", Filename: src, StartLine: 5}
+	l1 := &profile.Location{ID: 1, Mapping: m, Address: 0x1010, Line: []profile.Line{{Function: f1, Line: 12}}}
+	l2 := &profile.Location{ID: 2, Mapping: m, Address: 0x1020, Line: []profile.Line{{Function: f2, Line: 30}}}
+	p := &profile.Profile{SampleType: []*profile.ValueType{{Type: "samples", Unit: "count"}}, PeriodType: &profile.ValueType{Type: "cpu", Unit: "ns"}, Period: 1,
+		Mapping: []*profile.Mapping{m}, Function: []*profile.Function{f1, f2}, Location: []*profile.Location{l1, l2},
+		Sample: []*profile.Sample{{Location: []*profile.Location{l1}, Value: []int64{3}}, {Location: []*profile.Location{l2}, Value: []int64{5}}}}
+	seen := map[string]int{}
+	for k := 0; k < 40; k++ {
+		res := vdrv.Run(vdrv.Opts{Args: []string{"-list=dup", "-output=out", "src"}, Fetch: func(string) (*profile.Profile, error) { return p.Copy(), nil }})
+		seen[string(res.Files["out"])]++
+	}
+	for o, n := range seen {
+		fmt.Println(n, "times:\n"+o)
 	}
 }
